@@ -1,4 +1,4 @@
-CONSTANTS Scope = "table" TableLo = 1 NTable = 7 MaxLen = 9 RunCalls = TRUE Transports = {"grpc", "rest"} FreeJitter = TRUE Mutant = "none"
+CONSTANTS Scope = "table" TableLo = 1 NTable = 7 MaxLen = 9 RunCalls = TRUE Transports = {"grpc", "grpc_asyncio", "rest"} FreeJitter = TRUE Mutant = "none"
 SPECIFICATION TSpec
 CONSTRAINT Progress
 INVARIANT Inv_Resolve
